@@ -103,6 +103,21 @@ func baseHistory2(e *nEnv) {
 	vrt.WaitIdle()
 }
 
+// baseHistory3: a1,b1,c1 | S1 | delete b, re-insert b | S2 | insert d | S3
+// S3 sees the newer version of b; the older one (dead in epoch 2) is collected once S1 and S2 are closed.
+func baseHistory3(e *nEnv) {
+	e.mPut(0, "a", "1", 0)
+	e.mPut(0, "b", "1", 1)
+	e.mPut(0, "c", "1", 0)
+	e.mSnap()
+	e.mDel(0, "b")
+	e.mPut(0, "b", "1", 1)
+	e.mSnap()
+	e.mPut(0, "d", "1", 0)
+	e.mSnap()
+	vrt.WaitIdle()
+}
+
 // checkScan: a reader thread scans snapshot i and compares with its reference content.
 func (e *nEnv) checkScan(i int, rate int) string {
 	s := e.snaps[i]
@@ -154,6 +169,15 @@ func concDrivers(prop string, tier string) []concDriver {
 						func(e *nEnv, x *concCtx) { e.mDel(0, "c"); e.mPut(0, "bb", "1", 1); e.mDel(0, "bb") },
 					}},
 				)
+			}
+			for _, rate := range []int{0, 1} {
+				rate := rate
+				// the collector unlinks the dead older version of b while the reader's cursor may rest on it; the
+				// newer version of b is visible to the reader
+				ds = append(ds, concDriver{name: fmt.Sprintf("base3/readS3-vs-closeS1S2/refresh%d", rate), base: 2, cfg: cfg, threads: []func(e *nEnv, x *concCtx){
+					func(e *nEnv, x *concCtx) { x.res[0] = e.checkScan(2, rate) },
+					func(e *nEnv, x *concCtx) { e.closeSnap(0); e.closeSnap(1) },
+				}})
 			}
 			ds = append(ds,
 				concDriver{name: "readS1-vs-closeS3S2-writer", cfg: cfg, threads: []func(e *nEnv, x *concCtx){
@@ -306,6 +330,8 @@ func runConcDriver(jc *JobCtx, prop string, d concDriver, model vrt.CostModel, b
 		vrt.NoBranch(true)
 		if d.base == 1 {
 			baseHistory2(e)
+		} else if d.base == 2 {
+			baseHistory3(e)
 		} else {
 			baseHistory(e)
 		}
